@@ -331,7 +331,7 @@ def sample_spec(draw, min_d=1, max_d=6, min_n=0, max_n=40, datatypes=('I', 'I', 
         else:
             pne.append('0,0')
     png = [draw(st.sampled_from([None, None, '1', '2.5', '0.5', '16'])) for _ in range(D)]
-    pnv = [draw(st.sampled_from([None, '450', '600.5', '250'])) for _ in range(D)]
+    pnv = [draw(st.sampled_from([None, '450', '600.5', '250', '0'])) for _ in range(D)]       # a detector may be switched off (0 V)
     pns = [draw(st.sampled_from([None, 'GFP', 'mCherry', 'label %d' % j])) for j in range(D)]
     if D >= 2 and draw(st.sampled_from([True, False, False])):
         # a label is free text: it may well read like the name of another channel (names stay the only names)
